@@ -22,7 +22,7 @@ CHECKS = {
         ref='DESIGN.md 8/C05', technique='TLA+ spec Sites.tla + Lattice.tla; TLC model checking + trace validation with exact integer oracle'),
     'C01': dict(
         text='The in-place positions/displacements switches are transcribed into TLA+; TLC checks in-cell, same-modulo-1, minimum-image, telescoping and lattice-shift invariance for every raw one-coordinate trajectory over all shifts (MC_Wrap) and along every call sequence (MC_Trajectory); recorded executions with lattice-shifted and face-adjacent inputs in 6 cell families are judged by the trace spec, distances through the integer metric tensor.',
-        note='Trusted: TLC; exact-lattice abstraction (/16 grid, face menu k/16+e); half-cell steps excluded as ambiguous. Generic floats only via rotated cells.',
+        note='Trusted: TLC; exact-lattice abstraction (/16 grid, face menu k/16+e); half-cell steps excluded as ambiguous. Generic floats only via rotated cells. Runs of 10 007 / 70 001 frames are held to their generating periodic steps (MC_Wrap lemmas StepsMinImage / Telescoping / ShiftInvariant).',
         ref='DESIGN.md 8/C01', technique='TLA+ spec Trajectory.tla; TLC model checking (MC_Wrap, MC_Trajectory) + trace validation (TraceTraj.tla)'),
     'C02': dict(
         text='Site assignment is specified on an exact integer lattice (metric tensor only, so orientation-free); TLC checks uniqueness / inner-in-outer / translation lemmas exhaustively on a small grid and judges the .states/.inner_states recorded from the real code for 6 cell families x 3 orientations x 4 radius modes with exact minimum-image distances.',
@@ -50,11 +50,11 @@ CHECKS = {
         ref='DESIGN.md 8/C10', technique='TLA+ spec Grid.tla (walker, MinCost, MinPeak, Tile); TLC model checking (MC_Walker) + trace validation (TraceGrid.tla)'),
     'C11': dict(
         text='Pair histograms and their partition over site states are TLA+ operators over integer grid positions and the integer metric tensor; TLC checks on every bounded site history that the state classification is a partition with the stated meaning, and recomputes every minimum-image pair distance to judge recorded radial_distribution_between_species (both species orders) and Transitions.radial_distribution results bin by bin.',
-        note='Trusted: TLC; exact-lattice abstraction (/64 grid); bin edges kept 2e-5 (relative) away from every attainable distance; shell normalisation removed by alpha.',
+        note='Trusted: TLC; exact-lattice abstraction (/64 grid); bin edges kept 2e-5 (relative) away from every attainable distance; shell normalisation removed by alpha. Long runs (1505 / 12 007 frames) rest on the tiling relation: K repeats of a short trajectory give K times its pair counts.',
         ref='DESIGN.md 8/C11', technique='TLA+ spec Rdf.tla (PairCount, StateClass, StateCounts); TLC model checking (MC_Sites InvStateClassPartition) + trace validation (TraceRdf.tla)'),
     'C12': dict(
         text='The sorted scan of collective.py is transcribed into TLA+ and TLC proves it equal to the declarative pair definition on every bounded jump table (negative control: the early exit originally coded is refuted); TLC-exported tables are replayed through Collective and random tables in real cells are judged by the trace spec with exact site distances.',
-        note='Trusted: TLC; tables injected through the public Jumps(conversion_method=...) parameter; cut-offs kept 1e-4 away from site distances; cells periodic along some axes only are covered (DistSqPbc).',
+        note='Trusted: TLC; tables injected through the public Jumps(conversion_method=...) parameter; cut-offs kept 1e-4 away from site distances; cells periodic along some axes only are covered (DistSqPbc); tables of 1104 / 2304 jumps are K-fold repeats of a TraceColl-judged small table.',
         ref='DESIGN.md 8/C12', technique='TLA+ spec Sites.tla (CodePairs vs DeclPairs), MC_Coll with negative control; replay of TLC-exported tables + trace validation (TraceColl.tla)'),
     'C13': dict(
         text='Drift correction is an action of the Trajectory object-store spec; TLC checks on the model that the reference does not move and the first frame is kept along every call sequence, and judges recorded drift()/apply_drift_correction() calls of the real code (fixed/floating/none, str/list/set, Species/Element, raw/derived/already-corrected objects) against the exact corrected walk.',
@@ -78,7 +78,7 @@ CHECKS = {
         ref='DESIGN.md 8/C17', technique='TLA+ spec Shape.tla; TLC model checking (MC_Shape + negative control) + trace validation (TraceShape.tla) with multiset comparison'),
     'C18': dict(
         text='Matching, minimum-image bond vectors, images under orthogonal operations, linear maps and autocorrelation numerators are TLA+ operators over integer grid positions; TLC checks group-closure / transpose / invariance lemmas exhaustively for a point group on small vectors and prints the expected integers for harness-generated cluster trajectories, against which Orientations.vectors, lengths, normalize, symmetrize (20 point groups, both call forms), transform and autocorrelation are compared.',
-        note='Trusted: TLC; pymatgen point-group matrices (asserted orthogonal); Cartesian clauses in an integer-matrix cubic cell with Pythagorean-quadruple bonds. vectors_spherical invertibility is not covered. The autocorrelation deviation (irfft length) is known finding D15.',
+        note='Trusted: TLC; pymatgen point-group matrices (asserted orthogonal); Cartesian clauses in an integer-matrix cubic cell with Pythagorean-quadruple bonds. vectors_spherical is judged by a float round trip in the harness (azimuth, elevation in degrees, length -> vector), not by TLC. The autocorrelation deviation (irfft length) is known finding D15.',
         ref='DESIGN.md 8/C18', technique='TLA+ spec Orient.tla; TLC model checking (MC_Orient) + TLC as exact oracle on recorded inputs (TraceOrient.tla)'),
     'C19': dict(
         text='TLC checks on every bounded history and every cut that part jumps are jumps of the whole; recorded split() results of the real code are validated by the trace spec for partition, exactly-once, re-basing and chronology with an offset witness.',
